@@ -60,6 +60,20 @@ def build_pool(tier: str):
         pool.append(('Float', f'Float({s},60,1)', Float(s, 60, 1)))
         pool.append(('Float', f'Float({s},-1080,3)', Float(s, -1080, 3)))
     ints = list(range(-9, 10)) + [12, -12, 16, -17, 2 ** 60, -2 ** 60, 2 ** 53 + 1]
+    # clusters around the limits of a double: conversions through float() are wrong exactly here
+    for base in (2 ** 53, 2 ** 64, 2 ** 1024):
+        for dlt in (-1, 0, 1, 2):
+            v = base + dlt
+            for sg in (1, -1):
+                ints.append(sg * v)
+            tz = (v & -v).bit_length() - 1
+            pool.append(('Float', f'Float(False,{tz},{v >> tz})', Float(False, tz, v >> tz)))
+            pool.append(('RealFloat', f'RealFloat(True,{tz},{v >> tz})', RealFloat(True, tz, v >> tz)))
+            pool.append(('Fraction', f'Fraction({v},1)', Fraction(v, 1)))
+    pool.append(('float', repr(2.0 ** 53), 2.0 ** 53))
+    pool.append(('float', repr(2.0 ** 64), 2.0 ** 64))
+    pool.append(('float', repr(-(2.0 ** 53)), -(2.0 ** 53)))
+    pool.append(('Fraction', 'Fraction(1,3) + 2**53', Fraction(1, 3) + 2 ** 53))
     if tier != 'quick':
         ints += [10, 11, -10, -11, 13, 14, 15, -13, -14, -15, -16, 17]
     for i in ints:
